@@ -34,11 +34,19 @@ class _GoneClient(io.BytesIO):
 class Stack:
     """platform: 'ledger' (HSM2Dongle over fake HID), 'sgx' (HSM2DongleSGX over
     fake socket), 'tcp' (HSM2DongleTCP over fake socket)."""
+    _made = 0
 
     def __init__(self, device, version_one=False, pin=None, platform=None, iodebug=False,
-                 loglevel="DEBUG"):
+                 loglevel=None):
         # loglevel: the manager always runs with logging configured (shipped logging.cfg:
-        # everything down to DEBUG is formatted); "INFO" is a quieter operator's file
+        # everything down to DEBUG is formatted); "INFO" is a quieter operator's file.
+        # Not given: every sixth manager of a process runs under WARNING and every sixth
+        # under INFO (logging is process-wide: managers alive at that moment follow) -
+        # what is logged is no part of what a manager does
+        if loglevel is None:
+            n = Stack._made
+            Stack._made += 1
+            loglevel = {3: "INFO", 5: "WARNING"}.get(n % 6, "DEBUG")
         env.logging_as_shipped(loglevel)
         # iodebug: the manager's -D / --iodebug option (low-level I/O traces; what the
         # transport prints goes to a sink)
